@@ -61,15 +61,17 @@ type resolver struct {
 
 func (r *resolver) module(y *Module) error {
 	r.loadedModules[y.ident] = y
-	if y.featureSet != nil {
-		if err := y.featureSet.Initialize(y); err != nil {
-			return err
-		}
-	}
 
 	// exand all includes
 	if err := r.copyOverIncludes(y, y.includes); err != nil {
 		return err
+	}
+
+	// after the includes, features declared in submodules count as well
+	if y.featureSet != nil {
+		if err := y.featureSet.Initialize(y); err != nil {
+			return err
+		}
 	}
 
 	// expand all imports first because local uses may reference groupings in other files.
